@@ -2,7 +2,8 @@
    the real BaseExporter by harness/C03/shutdown_test.go.
    Case term:  (cfg, phases, final)
      cfg    : [persistent; batch; timer; retry mode; consumers; min_size; wait_for_result;
-               queue-size snapshot write fails; storage Close fails; max_size; has a queue sender]   (list nat)
+               queue-size snapshot write fails; storage Close fails; max_size; has a queue sender;
+               MergeSplit does not top up the current batch]   (list nat)
      phases : list (action, events observed until quiescence after the action)
               action = (0, id, items) offer | (1, first id of the call, outcome 0 ok/1 transient/2 permanent)
                        release | (2, 0, 0) call Shutdown | (2, m, 1|2) call Shutdown, race observed (2: it returned an error; see Model.v) | (3, 0, 0) the flush timer fires | (4, id, 0) Send (exporter without queue)
@@ -17,8 +18,8 @@ Definition nz (n : nat) : bool := negb (Nat.eqb n 0).
 
 Definition hcfg_of (l : list nat) : option hcfg :=
   match l with
-  | [p; b; t; m; n; mn; w; fs; fc; mx; q] =>
-      Some (mkH (mkCfg (nz q) (nz p) (nz b) (nz t) (nz m) n (if nz b then 1 else 0) 32) m mn mx (nz w) (nz fs) (nz fc))
+  | [p; b; t; m; n; mn; w; fs; fc; mx; q; nf] =>
+      Some (mkH (mkCfg (nz q) (nz p) (nz b) (nz t) (nz m) n (if nz b then 1 else 0) 32) m mn mx (nz w) (nz fs) (nz fc) (nz nf))
   | _ => None
   end.
 
@@ -81,7 +82,8 @@ Definition check_case (c : ctype) : bool :=
 Definition label_index (l : label) : nat :=
   match l with
   | LOffer _ => 0 | LOfferFail _ => 1 | LTake => 2 | LConsExit => 3
-  | LAbsorb _ 1 true => 4 | LAbsorb _ 1 false => 5 | LAbsorb _ _ true => 27 | LAbsorb _ _ false => 28
+  | LAbsorb _ _ _ false => 31
+  | LAbsorb _ 1 true _ => 4 | LAbsorb _ 1 false _ => 5 | LAbsorb _ _ true _ => 27 | LAbsorb _ _ false _ => 28
   | LSend _ => 29 | LNoQueue => 30
   | LSpawnC _ => 6 | LBegin _ => 7 | LEnd _ OOk => 8 | LEnd _ OTransient => 9 | LEnd _ OPermanent => 10
   | LRetryTimer _ => 11 | LRetryStop _ => 12 | LRetryGiveUp _ => 13 | LDone _ => 14
@@ -100,4 +102,4 @@ Definition case_labels (c : ctype) : list label :=
 
 Definition label_hist (cs : list ctype) : list nat :=
   let ls := flat_map case_labels cs in
-  map (fun k => length (filter (fun l => Nat.eqb (label_index l) k) ls)) (seq 0 31).
+  map (fun k => length (filter (fun l => Nat.eqb (label_index l) k) ls)) (seq 0 32).
